@@ -171,6 +171,19 @@ def oracle(ctx):
         words = ' '.join(['#c', ';s', '[X-Forged]ExecStartPost=/bin/x', 'Restart=always', 'plain', 'trail\\\\'] * (L // 60))
         units.append((f'long{L}.container', f'[Container]\nImage=localhost/i\nPodmanArgs={words}\nExec={words}\n[Service]\nExecStartPre=/bin/echo {words}\nRestart=no\n[Unit]\nDescription={words}\n'))
         units.append((f'long{L}.kube', f'[Kube]\nYaml=/k.yaml\nPodmanArgs={words}\n[Service]\nEnvironment={words}\n'))
+    # [Install] Alias= that, once cleaned, is the name of the unit's own service file (plain unit, template, instance; with and without
+    # DefaultInstance=): the file that is read back is the generated text, never a link put in its place
+    SUFFIX = {'volume': '-volume', 'network': '-network', 'pod': '-pod', 'image': '-image', 'build': '-build'}
+    for stem in ('own', 'own@', 'own@inst'):
+        for ty in G.TYPES:
+            for spell in ('{}', './{}', 'x/../{}', '{} other.service'):
+                for di in ('', 'DefaultInstance=d\n'):
+                    if di and stem != 'own@':
+                        continue
+                    st = stem.replace('own', f'own{len(units)}')
+                    sname = st.replace('@', SUFFIX.get(ty, '') + '@') if '@' in st else st + SUFFIX.get(ty, '')
+                    units.append((f'{st}.{ty}', '[' + G.SEC[ty] + ']\n' + '\n'.join(G.BASE[ty]) + '\n[Install]\n' + di
+                                  + 'Alias=' + spell.format(sname + '.service') + '\nWantedBy=multi-user.target\n'))
     # (T1) where text reaches a unit without the value quoter: inventory regenerated from the source vs the reviewed classification
     import sys
     rc0, out0, err0 = core.sh([sys.executable, os.path.join(core.VERIF, 'tools', 'raw_sites.py'), core.REPO, os.path.join(core.BUILD, 'raw_sites.json')])
